@@ -24,6 +24,10 @@ def step (st : SSt) (ws : List String) : Option (SSt × String) :=
   | ["send"] =>
     let (s, o) := Amqp.Credit.step st .send
     pure (s, render s o)
+  | ["try"] =>
+    match Amqp.Credit.tryConsume st 1 with
+    | some (s, tag) => pure (s, render s [.sent tag])
+    | none => pure (st, render st [.blocked])
   | _ => none
 
 def showPc : Pc → String
